@@ -74,7 +74,9 @@ TRUSTED = [
     'Polygon2D / Mesh2D / Plane objects are not compared',
     'polycache: histories in which a turn determinant / intersection parameter of a '
     'recomputed is_convex or is_self_intersecting is within 1e-9 of its threshold are cut at '
-    'that step and counted as float ties',
+    'that step and counted as float ties; likewise a scale of a face whose normal is zero or '
+    'vertical within 1e-9 (Plane.__init__ chooses its x axis by n.x == 0 and n.y == 0), unless '
+    'the real normal is exactly vertical AND the model holds exactly the same vertices',
 ]
 
 W = lbg.wnum
@@ -318,11 +320,13 @@ def apply_real(kind, o, w):
 
 def real_history(kind, start, ops):
     """-> list of expected entries: state dict | {'err':'assert'} | {'raise': name} |
-    {'obs': state} | {'tie': True} (history cut)."""
+    {'obs': state} | {'tie': True} (history cut).  A state may carry `_cond_tie` (keys starting
+    with `_` are harness annotations, not slots)."""
     o = FROM[kind](start)
     exp = []
     for w in ops:
-        if tie_before(kind, o, w):
+        t = tie_before(kind, o, w)
+        if t is True:
             exp.append({'tie': True})
             break
         try:
@@ -334,7 +338,10 @@ def real_history(kind, start, ops):
             exp.append({'raise': type(e).__name__})
             break
         o = o2
-        exp.append({'obs': obs} if obs is not None else STATE[kind](o))
+        entry = {'obs': obs} if obs is not None else STATE[kind](o)
+        if t:       # conditional tie: decided against the model's state before this step
+            entry['_cond_tie'] = True if t == 'cond' else t[1]
+        exp.append(entry)
     return exp
 
 
@@ -400,7 +407,8 @@ def selfint_tie(pts, closed):
 
 
 def tie_before(kind, o, w):
-    """Would this step recompute a threshold decision on near-threshold data?"""
+    """Would this step recompute a threshold decision on near-threshold data?
+    -> False | True | 'cond' | ('cond', [face indices]) (see `normal_tie`)."""
     op = w['op']
     if kind == 'polyline2d' and op == 'read_is_self_intersecting' \
             and o._is_self_intersecting is None:
@@ -414,16 +422,32 @@ def tie_before(kind, o, w):
             loops = [o._boundary] + list(o._holes or ())
             return any(selfint_tie([o._plane.xyz_to_xy(p) for p in lp], True) for lp in loops)
         if op in ('scale', 'scale_world') and Fraction(w['k']) != 0:
-            return normal_tie(o._vertices)
+            t = normal_tie(o._vertices)
+            return True if t == 1 else ('cond' if t == 2 else False)
     if kind == 'polyface' and op in ('scale', 'scale_world') and Fraction(w['k']) > 0 \
             and o._faces is not None:
-        return any(normal_tie(f._vertices) for f in o._faces)
+        ts = [normal_tie(f._vertices) for f in o._faces]
+        if 1 in ts:
+            return True
+        cond = [i for i, t in enumerate(ts) if t == 2]
+        return ('cond', cond) if cond else False
     return False
 
 
 def normal_tie(verts):
-    """`_plane_from_vertices` of a (scaled) face: the summed fan normal is (numerically) zero,
-    so its direction is rounding noise."""
+    """`_plane_from_vertices` of a (scaled) face -> 0 no tie | 1 tie | 2 conditional tie.
+    1: the summed fan normal is (numerically) zero, so its direction is rounding noise; or the
+       normal is vertical only up to rounding (|(n.x, n.y)| <= 1e-9 |n| while the vertices are
+       not at exactly one z): `Plane.__init__` picks its x axis by `n.x == 0 and n.y == 0`, and
+       which branch is taken — and the direction of `(n.y, -n.x, 0)` — is noise.
+    2: the REAL normal is exactly vertical (all vertices at exactly one z, so the real code takes
+       the `x = (1, 0, 0)` branch with exact zeros).  The model holds the exact images of the
+       start vertices, the real object their roundings (e.g. a rotation by pi about (3,3,-2)
+       with sin = 1.2e-16 gives short dyadic doubles, the tiny terms are absorbed): when the
+       two inputs are not identical the model sees a tiny non-zero (n.x, n.y) and takes the
+       other branch.  Whether they are identical is decided in `compare_history` on the
+       model's state before the step: identical input -> NO tie (a wrong branch is
+       reported), different input -> tie."""
     q = [(Fraction(p.x), Fraction(p.y), Fraction(p.z)) for p in verts]
     s = max([Fraction(1)] + [abs(c) for p in q for c in p])
     n = [Fraction(0)] * 3
@@ -436,18 +460,12 @@ def normal_tie(verts):
         n[2] += u[0] * v[1] - u[1] * v[0]
     m2 = n[0] ** 2 + n[1] ** 2 + n[2] ** 2
     if m2 == 0:
-        return any(p != q[0] for p in q)        # all-equal vertices give exact zeros
+        return 1 if any(p != q[0] for p in q) else 0    # all-equal vertices give exact zeros
     if m2 <= (REL * s * s) ** 2:
-        return True
-    # Plane.__init__ picks its x axis by `n.x == 0 and n.y == 0`: a normal that is vertical
-    # only up to rounding (vertices not at exactly one z) makes that choice noise
-    # (the model holds the exact images of the vertices, the real object their roundings: only
-    # when no rounding has happened so far — short dyadic coordinates — do both see the same z)
+        return 1
     if n[0] ** 2 + n[1] ** 2 <= REL * REL * m2:
-        exact = all(c.denominator <= 2 ** 20 and abs(c) < 2 ** 20 for p in q for c in p)
-        if not (exact and all(p[2] == q[0][2] for p in q)):
-            return True
-    return False
+        return 2 if all(p[2] == q[0][2] for p in q) else 1
+    return 0
 
 
 # ------------------------------------------------------------------ comparison
@@ -496,7 +514,7 @@ def cmp_value(a, e, unit, path):
 
 def cmp_state(a, e, prefix=''):
     s = max(scale_of(a), scale_of(e))
-    keys = sorted(set(a) | set(e))
+    keys = sorted(k for k in set(a) | set(e) if not k.startswith('_'))
     # filled / empty first (the coarser disagreement wins)
     for k in keys:
         if (a.get(k) is None) != (e.get(k) is None):
@@ -523,15 +541,32 @@ def cmp_state(a, e, prefix=''):
     return None
 
 
-def compare_history(ops, val, exp):
+def same_input(a, e, which):
+    """Are the vertices the plane is recomputed from EXACTLY the same in the model state `a` and
+    the real state `e` (before the step)?"""
+    def fr(vs):
+        return [[Fraction(c) for c in v] for v in vs]
+    if which is True:
+        return fr(a['vertices']) == fr(e['vertices'])
+    if a.get('faces') is None or e.get('faces') is None:
+        return False
+    return all(i < len(a['faces']) and i < len(e['faces']) and
+               fr(a['faces'][i]['vertices']) == fr(e['faces'][i]['vertices']) for i in which)
+
+
+def compare_history(ops, val, exp, start=None):
     """-> (n compared, tie?, None | (step index, what-key, detail))."""
     n = 0
     if len(val) != len(ops):
         return 0, False, (0, 'answer length', 'model answered %d of %d ops' % (len(val), len(ops)))
+    prev_a = prev_e = start
     for i, e in enumerate(exp):
         if 'tie' in e:
             return n, True, None
         a = val[i]
+        if e.get('_cond_tie') and (prev_a is None or
+                                   not same_input(prev_a, prev_e, e['_cond_tie'])):
+            return n, True, None
         n += 1
         if 'raise' in e:
             return n, False, (i, 'raises %s' % e['raise'], 'real raises %s, model %s' % (
@@ -547,6 +582,7 @@ def compare_history(ops, val, exp):
             bad = cmp_state(a['obs'], e['obs'], 'result.')
         else:
             bad = cmp_state(a, e)
+            prev_a, prev_e = a, e
         if bad:
             return n, False, (i, bad[0], bad[1])
     return n, False, None
@@ -960,7 +996,7 @@ def signature(kind, ops, i, what):
 
 
 def filled_slots(e):
-    return [k for k, v in e.items() if v is not None and k not in (
+    return [k for k, v in e.items() if v is not None and not k.startswith('_') and k not in (
         'vertices', 'interpolated', 'boundary', 'holes', 'plane', 'face_indices', 'edge_indices',
         'edge_types', 'is_solid')]
 
@@ -999,7 +1035,7 @@ def check_one(driver, kind, start, ops):
     ok, val = driver.run([(OPNAME[kind], [start, wire_ops(ops)])])[0]
     if not ok:
         return (0, 'driver error', str(val)[:200])
-    return compare_history(ops, val, exp)[2]
+    return compare_history(ops, val, exp, start)[2]
 
 
 def shrink(driver, kind, start, ops, what_key, deadline):
@@ -1015,7 +1051,7 @@ def shrink(driver, kind, start, ops, what_key, deadline):
         for c, e, (ok, val) in zip(cands, exps, answers):
             if not ok:
                 continue
-            bad = compare_history(c, val, e)[2]
+            bad = compare_history(c, val, e, start)[2]
             if bad and signature(kind, c, bad[0], bad[1]) == what_key:
                 better = c[:bad[0] + 1]
                 break
@@ -1075,7 +1111,7 @@ def run(ctx, prop):
             if not ok:
                 bad, n, tie = (0, 'driver error', str(val)[:200]), 0, False
             else:
-                n, tie, bad = compare_history(ops, val, exp)
+                n, tie, bad = compare_history(ops, val, exp, start)
             out['requests'] += n
             out['float_ties'] += 1 if tie else 0
             out['nontrivial'] += nontrivial_steps(start, ops, exp)
@@ -1098,16 +1134,18 @@ def run(ctx, prop):
     do_batch([(k, s, [dict(w) for w in o]) for k, s, o in fixed_corpus()], 'fixed')
     bump(hist['source'], 'fixed corpus', len(fixed_corpus()))
 
-    r = random.Random('%s/corr.polycache' % ctx.seed)
+    # one PRNG stream per round, a fixed number of histories per round: what a round contains
+    # depends on (seed, round) only, never on the speed of the machine
     per_batch = 700 if thorough else 230
     max_len = 20 if thorough else 8
     rounds = 0
     while time.time() < stop and (rounds < 1 or thorough) and rounds < 12:
+        r = random.Random('%s/corr.polycache/%d' % (ctx.seed, rounds))
         cases = []
         tb = time.time()
         for _ in range(per_batch):
             cases.append(random_history(r, hist, max_len))
-            if time.time() > stop or (not thorough and time.time() - tb > 4.0):
+            if not thorough and time.time() - tb > 8.0:     # safety net for the quick budget
                 break
         do_batch(cases, 'round%d' % rounds)
         rounds += 1
